@@ -507,7 +507,8 @@ def build_saf(ctx, rng, d, n, ch_ids=("V", "N", "E"), tag="saf", shared=None, eo
     eol = eol or str(rng.choice(["\n", "\r\n"]))
     by_letter = {"V": data["vt"], "N": data["ns"], "E": data["ew"]}
     path = os.path.join(d, f"{tag}_{''.join(ch_ids)}_{'crlf' if eol != chr(10) else 'lf'}.saf")
-    FF.write_saf(path, [by_letter[x] for x in ch_ids], ch_ids, fs_written, north_rot, eol, rich_header=bool(rng.random() < 0.7))
+    FF.write_saf(path, [by_letter[x] for x in ch_ids], ch_ids, fs_written, north_rot, eol, rich_header=bool(rng.random() < 0.7),
+                 id_line_order=[int(k) for k in rng.permutation(3)] if rng.random() < 0.35 else None)
     ctx.count("files_written:saf")
     maybe_strip_final_newline(ctx, rng, path)
     if north_rot is None:
